@@ -172,6 +172,8 @@ def run_script(nsends, script, waits=None, late=None, cancels=None, rng=None, wa
                 d.tick()
             elif r == "error":
                 d.frames([("ERROR", 2, 0x52)])
+            elif r.startswith("error:"):       # ERROR with a given code (0x00 = "unknown reason" is a code like any other)
+                d.frames([("ERROR", 2, int(r[6:]))])
             elif r == "rstack":
                 d.frames([("RSTACK", 2, 11)])
                 d.tick()
@@ -334,7 +336,11 @@ class Check(PropertyCheck):
         for r in RACES:
             cases.append({"n": 2, "script": ["silence"] * 4 + [r]})
             cases.append({"n": 1, "script": ["nak"] * 4 + [r]})
-        allr = REACTIONS + ["dataack", "acknak", "nakack", "errrst", "ack", "ack", "silence", "nak"] + RACES
+        # every reset code an ERROR frame can carry, on the first and on a later attempt, with a send queued behind
+        for code in (range(256) if tier != "quick" else [0, 1, 2, 3, 6, 9, 0x0B, 0x51, 0x52, 0x53, 0x80, 0xFF]):
+            cases.append({"n": 2, "script": [f"error:{code}"]})
+            cases.append({"n": 1, "script": ["silence", "nak", f"error:{code}"], "tail": ["submit", "rstack", "submit", "ack"]})
+        allr = REACTIONS + ["dataack", "acknak", "nakack", "errrst", "ack", "ack", "silence", "nak", "error:0", "error:255"] + RACES
         for _ in range(300 if tier == "quick" else 5000):
             n = rng.randrange(1, 7)
             ln = rng.randrange(2, 16)
@@ -392,9 +398,25 @@ class Check(PropertyCheck):
         awaiting = None
         resets_expected = 0
         for ev, st in zip(case["_events"], obs["steps"]):
-            nreset_fail = sum(1 for e in st if e[0] == "reset" and e[1] != 11 and e[1] != 2)
-            rst = ev[0] in ("frames", "race") and any(fr[0] == "RSTACK" for fr in ev[1])
-            err = ev[0] in ("frames", "race") and any(fr[0] == "ERROR" for fr in ev[1])
+            # upward reports of this step against the frames that cause them: every RSTACK and every ERROR frame is
+            # reported with ITS code, in order; at most one further report, the spent budget (0x51)
+            frames_in = list(ev[1]) if ev[0] in ("frames", "race") else []
+            want = [fr[2] for fr in frames_in if fr[0] in ("RSTACK", "ERROR")]
+            got = [e[1] for e in st if e[0] == "reset"]
+            extra = list(got)
+            for c in want:
+                if c in extra:
+                    extra.remove(c)
+                else:
+                    return (f"the read carried {[(fr[0], fr[2]) for fr in frames_in if fr[0] in ('RSTACK', 'ERROR')]} but the upper layer "
+                            f"was told {got}: the code {c:#x} of a frame was not reported")
+            if extra not in ([], [0x51]):
+                return f"upper layer told {got} in one step; the frames account for {want}, the spent budget for at most one 0x51"
+            if [c for c in got if c in want or c == 0x51] != got or sorted(got) != sorted(want + extra):
+                return f"upper layer told {got}, expected {want} (+ {extra})"
+            nreset_fail = len(extra) + sum(1 for fr in frames_in if fr[0] == "ERROR")
+            rst = any(fr[0] == "RSTACK" for fr in frames_in)
+            err = any(fr[0] == "ERROR" for fr in frames_in)
             if rst:
                 failed_since = None
                 last_first_frm = None
@@ -432,10 +454,6 @@ class Check(PropertyCheck):
                     if not any(x[0] == "reset" and x[1] == 0x51 for x in st):
                         return (f"send {e[1]} gave up after the last permitted attempt ({'NAK' if e[2] == [1] else 'timeout'}) "
                                 f"but the upper layer was not told that the link failed")
-            if err and sum(1 for e in st if e[0] == "reset" and e[1] not in (11, 2)) < 1:
-                return "ERROR frame not reported upward"
-            if nreset_fail > 1 and not (err and nreset_fail <= sum(1 for fr in ev[1] if fr[0] == "ERROR") + 1):
-                return f"upper layer told {nreset_fail} times in one step"
             if nreset_fail and not rst:
                 failed_since = len(order)
             if nreset_fail and rst:
@@ -461,7 +479,8 @@ class Check(PropertyCheck):
                 elif e[0] == "done":
                     out_frm = None
                 elif e[0] == "reset":
-                    link_failed = e[1] not in (11, 2)
+                    fin = [fr for fr in (ev[1] if ev[0] in ("frames", "race") else []) if fr[0] in ("RSTACK", "ERROR")]
+                    link_failed = not (fin and fin[-1][0] == "RSTACK")
                     out_frm = None
         # outcome OK only with a covering acknowledgement in the very event that completed it
         cur_frm = None
